@@ -55,6 +55,13 @@ structure Holds (cfg : Cfg) : Prop where
     (∀ p ∈ dir, p.2 ≠ [] ∧ ∃ now ops st, createFileCfg cfg p.2 now = some st ∧ p.1 = (runOps cfg codec crc bs st ops).file) →
     (∀ n, n ∈ Hv.Storage.listing cfg codec.toDecoder crc (dir.map (·.1)) ↔ (n ∈ dir.map (·.2) ∧ splits3 n = true)) ∧
     (Hv.Storage.listing cfg codec.toDecoder crc (dir.map (·.1))).Nodup
+  /-- …and a legacy file (also after appends) under the name of its metadata entry -/
+  listedV2 : ∀ (codec : Codec) (crc : Checksum) (bs : Nat) (hdr : FileHeader) (blocks : List (List Entry))
+      (nm : Bytes) (rest : List Entry) (ops : List Op),
+    hdr.Valid → hdr.version = 2 → (∀ b ∈ blocks, GoodBlock b) →
+    blocks.flatten = ⟨opMetadata, metadataKey, nm⟩ :: rest → nm ≠ [] → Params cfg bs → WritesOK cfg ops →
+    scanListed cfg codec.toDecoder crc (runOps cfg codec crc bs (legacyState codec crc hdr blocks) ops).file
+      = if splits3 nm then some nm else none
   /-- the interactive explorer shows the whole listing of a realm, however large -/
   tuiComplete : ∀ sorted : List Bytes, tuiView cfg sorted = sorted
   /-- the explorer lists a file the engine wrote under exactly its name, iff the name has the
@@ -185,12 +192,54 @@ theorem listing_exact (cfg : Cfg) (codec : Codec) (crc : Checksum) (bs : Nat) (d
     rw [hfile, scan_v3 cfg codec crc bs p.2 now hlen hne ops]
     simp [h3]
 
+/-- `scanFile` on a legacy file (also after appends by the current writer): its own fallback — the
+    first `__swamp_meta__` entry among the entries read, empty data allowed, errors tolerated — finds
+    the same name `LoadIndex`'s fallback reports (`name_roundtrip_v2_fallback`) -/
+theorem scan_v2 (cfg : Cfg) (codec : Codec) (crc : Checksum) (bs : Nat)
+    (hdr : FileHeader) (blocks : List (List Entry)) (nm : Bytes) (rest : List Entry) (ops : List Op)
+    (hv : hdr.Valid) (h2 : hdr.version = 2) (hg : ∀ b ∈ blocks, GoodBlock b)
+    (hfirst : blocks.flatten = ⟨opMetadata, metadataKey, nm⟩ :: rest) (hne : nm ≠ [])
+    (hP : Params cfg bs) (hW : WritesOK cfg ops) :
+    scanListed cfg codec.toDecoder crc (runOps cfg codec crc bs (legacyState codec crc hdr blocks) ops).file
+      = if splits3 nm then some nm else none := by
+  have hI := runOps_inv cfg codec crc bs hP [] ops _ _ false (legacyState_inv cfg codec crc bs hdr blocks hv h2 hg) hW
+  have hle := runOps_pending_le cfg codec crc bs hP [] ops _ _ _ (legacyState_inv cfg codec crc bs hdr blocks hv h2 hg) hW
+  obtain ⟨⟨blocks', ⟨⟨hdr', hfile, hv', hn'⟩, hgood'⟩, hacc⟩, _, _⟩ := hI
+  have hp0 : (legacyState codec crc hdr blocks).pending = [] := by simp [legacyState, St.pending]
+  rw [hp0] at hle
+  simp only [List.length_nil, Nat.zero_add] at hle
+  obtain ⟨e, he⟩ := prefix_of_append_eq _ _ _ _ hacc hle
+  have hread : readBlocksP cfg codec.toDecoder crc (renderBlocks codec crc blocks') = (blocks'.flatten, none) := by
+    have := readBlocksP_blocks cfg codec crc blocks' [] hgood'
+    rw [List.append_nil, readBlocksP_nil] at this
+    simpa using this
+  have hemp : nm.isEmpty = false := by cases nm with | nil => exact absurd rfl hne | cons _ _ => rfl
+  unfold scanListed scanName
+  rw [hfile]
+  unfold render
+  rw [openReader_prefix hdr' [] _ hv' hn']
+  simp only [List.isEmpty_nil, if_true]
+  rw [drop_dataStart hdr' [] _ hn', hread, he, hfirst]
+  simp [scanMetaName_cons, hemp]
+
+/-- the Load self-heal `CompactFromIndex(…, name, index)`: the rewritten file answers the name it was given -/
+theorem compactFromIndex_keeps_given_name (cfg : Cfg) (codec : Codec) (crc : Checksum) (bs now : Nat) (name : Bytes)
+    (idx : Index) (st : St) (hn : name.length < 2 ^ 16) :
+    readSwampName cfg codec.toDecoder crc (compactFromIndexSt cfg codec crc bs now name idx st).1.file = .ok name := by
+  have hcf : createFileCfg cfg name now = some (createFile name now) := by
+    unfold createFileCfg
+    rw [if_neg]
+    simp only [Bool.and_eq_true, decide_eq_true_eq, not_and, Nat.not_lt]
+    intro _; omega
+  simp only [compactFromIndexSt, hcf]
+  exact name_roundtrip_v3 cfg codec crc bs name now hn _
+
 def Good (cfg : Cfg) : Prop :=
   cfg.rejectsLongName = true ∧ cfg.v2Fallback = true ∧ cfg.tuiListsAll = true
 
 theorem holds_of_good (cfg : Cfg) (hg : Good cfg) : Holds cfg := by
   obtain ⟨h1, h2, h3⟩ := hg
-  refine ⟨?_, ?_, ?_, ?_, ?_, tuiView_all cfg h3, ?_⟩
+  refine ⟨?_, ?_, ?_, ?_, ?_, fun codec crc bs hdr blocks nm rest ops hv hv2 hgb hf hne hP hW => scan_v2 cfg codec crc bs hdr blocks nm rest ops hv hv2 hgb hf hne hP hW, tuiView_all cfg h3, ?_⟩
   · intro codec crc bs name now st ops hc
     obtain ⟨hst, hn⟩ := createFileCfg_some cfg h1 name now st hc
     subst hst
